@@ -16,7 +16,15 @@ demo_cmd = f"cargo test --offline {os.environ.get('SEEDED_DEMO_FLAGS', '')} --te
 if demo_cmd is None:
     # demo directory with its own instructions: look for a run.sh
     cands = glob.glob(os.path.join(wt, f"demo{i}", "run.sh"))
-    demo_cmd = f"sh {cands[0]}" if cands else None
+    ddir = os.path.join(wt, f"demo{i}")
+    flags = os.environ.get('SEEDED_DEMO_FLAGS', '')
+    if cands:
+        demo_cmd = f"sh {cands[0]}"
+    elif os.path.exists(os.path.join(ddir, "Cargo.toml")):
+        sub = "test" if os.path.isdir(os.path.join(ddir, "tests")) else "run"
+        demo_cmd = f"cargo {sub} --offline {flags} --manifest-path {ddir}/Cargo.toml"
+    else:
+        demo_cmd = None
 assert demo_cmd, "no demonstration found"
 meta = {"property": prop, "source": "independent sub-agent, given only the property text and a scratch worktree", "ran": []}
 sh("git checkout -- src", wt)
